@@ -29,14 +29,21 @@ class FakeProc:
         self.program = program
         self.returncode = None
         self.killed = False
+        self.dying = None  # polls left before a signalled process is really gone (world.kill_latency)
         self.waited = 0
         self.stdin = self.stdout = self.stderr = None
 
     def poll(self):
+        if self.dying is not None and self.returncode is None:
+            self.dying -= 1
+            if self.dying <= 0:
+                self.returncode = -15
         return self.returncode
 
     def wait(self, timeout=None):
         self.waited += 1
+        if self.dying is not None and self.returncode is None:
+            self.returncode = -15  # waiting for a signalled process lets it finish dying
         if self.returncode is None:
             raise RuntimeError("wait() on a fake process that is still running")
         return self.returncode
@@ -56,7 +63,13 @@ class FakeProc:
     def kill_(self):
         if self.returncode is None:
             self.killed = True
-            self.returncode = -15
+            lat = getattr(self.world, "kill_latency", 0)
+            if lat:
+                # slow teardown (mpirun): the process stays 'running' for a few more polls
+                if self.dying is None:
+                    self.dying = lat
+            else:
+                self.returncode = -15
 
 
 class World:
@@ -68,6 +81,7 @@ class World:
         self.idle = 0
         self.sleeps = 0
         self.max_visible_per_poll = 0
+        self.kill_latency = 0
 
     # -- shims -----------------------------------------------------------
     def Popen(self, cmd, **kw):
@@ -80,7 +94,7 @@ class World:
         self.sleeps += 1
         if self.sleeps > 500:
             raise RuntimeError("fake-process horizon exceeded (engine keeps polling)")
-        live = [p for p in self.procs if p.returncode is None]
+        live = [p for p in self.procs if p.returncode is None and p.dying is None]
         if not live:
             return
         p = live[-1]
